@@ -1,10 +1,11 @@
 (* C06 - proposal corrections of the RW, IWLS and user-proposal MH kernels: the reported
    acceptance probability is min(1, pi(x') q(x|x') / (pi(x) q(x'|x))) for the kernel's actual
    proposal density q, hence detailed balance.  (q a b = density of proposing b from a.) *)
-From Coq Require Import Reals List.
+From Coq Require Import QArith Reals List.
 From Coquelicot Require Import Coquelicot.
 From LV Require Import Analytic.Gauss Analytic.GaussProofs Analytic.IWLS Analytic.IWLSProofs
   Analytic.CorrC06 Analytic.IWLSWitness.
+From LV Require Base.Xnum Goose.MH Goose.MHProofs Analytic.IWLSExt.
 Import ListNotations.
 Open Scope R_scope.
 
@@ -138,3 +139,32 @@ Theorem C06_mhproposal_docstring_sign_refuted :
     <> mh_alpha (target (gs_lp 0 1)) (ar_q rho s) x x'.
 Proof. exact mhproposal_docstring_sign_refuted. Qed.
 Print Assumptions C06_mhproposal_docstring_sign_refuted.
+
+(* ---- zero target density (log-density -inf) at the current point or at the proposal: the ratio is taken in
+   the extended reals, on C05's special-value model of mh_step that all three kernels call ---- *)
+Theorem C06_from_zero_density : forall exp_o : Xnum.xnum -> Xnum.xnum,
+  exp_o Xnum.XPosInf = Xnum.XPosInf -> forall (a c : QArith_base.Q) (u : Xnum.xnum), MHProofs.unit_interval u ->
+  let o := MH.mh_decide exp_o MH.Lt Xnum.XNegInf (Xnum.XFin a) (Xnum.XFin c) u in
+  MH.code o = 0%nat /\ MH.prob o = Xnum.XFin 1%Q /\ MH.accept o = true.
+Proof. exact IWLSExt.from_zero_density. Qed.
+Print Assumptions C06_from_zero_density.
+
+Theorem C06_to_zero_density : forall exp_o : Xnum.xnum -> Xnum.xnum,
+  MHProofs.exp_ok exp_o -> forall (a c : QArith_base.Q) (u : Xnum.xnum), MHProofs.unit_interval u ->
+  let o := MH.mh_decide exp_o MH.Lt (Xnum.XFin a) Xnum.XNegInf (Xnum.XFin c) u in
+  MH.code o = 0%nat /\ MH.prob o = Xnum.XFin 0%Q /\ MH.accept o = false.
+Proof. exact IWLSExt.to_zero_density. Qed.
+Print Assumptions C06_to_zero_density.
+
+Example C06_zero_density_instance :
+  let o := MH.mh_decide MHProofs.exp_stub MH.Lt Xnum.XNegInf (Xnum.XFin (-(1#2))%Q) (Xnum.XFin 0%Q) (Xnum.XFin 0%Q) in
+  MH.code o = 0%nat /\ MH.prob o = Xnum.XFin 1%Q /\ MH.accept o = true.
+Proof. exact IWLSExt.ext_instance. Qed.
+
+Theorem C06_inf_ratio_as_error_refuted :
+  exists cur prop corr u, MHProofs.unit_interval u /\
+    MH.prob (MH.mh_decide MHProofs.exp_stub MH.Lt cur prop corr u) = Xnum.XFin 1%Q /\
+    MH.prob (IWLSExt.mh_decide_inf_is_error MHProofs.exp_stub cur prop corr u) = Xnum.XFin 0%Q /\
+    MH.code (IWLSExt.mh_decide_inf_is_error MHProofs.exp_stub cur prop corr u) = 90%nat.
+Proof. exact IWLSExt.inf_is_error_refuted. Qed.
+Print Assumptions C06_inf_ratio_as_error_refuted.
